@@ -148,6 +148,10 @@ fn fmt_items(items: &[Item]) -> String {
     format!("[{}]", v.join(", "))
 }
 
+/// Views longer than this are not given to the reference model (P5/P6 re-walk the buffer per item and fill);
+/// the model-free oracles P1-P4, L1 still apply. Set by --ref-limit.
+static REF_LIMIT: std::sync::atomic::AtomicUsize = std::sync::atomic::AtomicUsize::new(usize::MAX);
+
 struct Driver<'a> {
     def: &'a DefInfo,
     rf: &'a Ref,
@@ -286,6 +290,10 @@ impl<'a> Driver<'a> {
         if !self.ref_ok {
             return Ok(());
         }
+        if view.len() > REF_LIMIT.load(std::sync::atomic::Ordering::Relaxed) {
+            self.stats.hit("ref_model_skipped_long_view");
+            return Ok(());
+        }
         let mut pos = from;
         loop {
             if pos > it.start {
@@ -332,6 +340,9 @@ impl<'a> Driver<'a> {
     /// P5: at `None` with pending bytes the pending item must really be undetermined
     fn check_p5(&mut self, view: &[u8], r: usize) -> Result<(), Violation> {
         if !self.ref_ok || r >= view.len() {
+            return Ok(());
+        }
+        if view.len() > REF_LIMIT.load(std::sync::atomic::Ordering::Relaxed) {
             return Ok(());
         }
         let det_emitting = |rf: &Ref, v: &[u8]| -> Option<(usize, Det)> {
@@ -721,6 +732,14 @@ fn gen_input(rng: &mut Rng, def: &DefInfo, rf: &Ref, max_len: usize) -> Vec<u8> 
         _ => rng.range(24.min(max_len), max_len),
     };
     while out.len() < target {
+        if max_len > 512 && rng.chance(1, 6) {
+            // a long run of one fragment: long self-loops, many 8-byte batches
+            let f: &[u8] = *rng.pick(def.frags);
+            let f = if f.is_empty() { b"a" } else { f };
+            let unit = if rng.chance(2, 3) { &f[..1.max(f.iter().position(|b| (b & 0xC0) != 0x80 && *b != f[0]).unwrap_or(f.len()).min(f.len()))] } else { f };
+            for _ in 0..rng.range(8, 300) { out.extend_from_slice(unit); }
+            continue;
+        }
         match rng.below(8) {
             0..=2 => out.extend_from_slice(*rng.pick(def.frags)),
             3..=6 => {
@@ -988,6 +1007,7 @@ fn main() {
     let runs = args.num("runs", 10_000);
     let workers = args.num("workers", 16) as usize;
     let max_len = args.num("max-len", 96) as usize;
+    REF_LIMIT.store(args.num("ref-limit", u64::MAX) as usize, std::sync::atomic::Ordering::Relaxed);
     let replay_dir = args.get("replay-dir").unwrap_or("/verif/replays").to_string();
     let tag = args.get("tag").unwrap_or("build").to_string();
     let world = build_world(args.get("def"));
